@@ -17,7 +17,9 @@ base model, the property predicate D is evaluated on the REAL population:
               transient / instance / instance-set variable -> type first assigned / inst_ref<K> / inst_ref_set<K>;
               attribute and parameter read -> declared type) equals `type_of`, an independent Python
               implementation of these rules over the parsed tree and the base-model SPEC
-  K  the (subtype, type) list of all V_VAL in creation order and the three neighbour-reference patterns equal the
+  K  the (name, R848 type) list of all V_VAR in creation order equals the Lean `varWalk` (this ties the model's scope
+     rule - block push / pop, no shadowing, re-declaration after a block ended creates a new variable - to the code);
+     the (subtype, type) list of all V_VAL in creation order and the four neighbour-reference patterns equal the
      Lean model's `typeWalk` / chain builders run on the parsed tree; every created ACT_/V_ instance carries at
      least the links of a recipe of its class in the Lean recipe table (`recipe_conforms` is about that table).
 """
@@ -123,8 +125,25 @@ def _violations(m):
     return n
 
 
+LAYOUTS = ['', '\n', '\n\n', '  ', '\n   ', '\t', '\n\n\n ', ' \n', '    \n  ']
+MULTI_HOMES = ['function', 'bridge', 'operation']       # the three homes with the same parameters
+
+
 def generate(ctx):
-    return P5.generate(ctx, n_quick=2000)
+    # one body in several homes of ONE model, with different leading blank lines / first-line indentation:
+    # every action must carry the positions of its OWN text
+    rng = ctx.rng.fork('multi')
+    for i in range(ctx.pick(60, 1500)):
+        r = rng.fork(i)
+        g = G.ProgramGen(r, 'function', r.randint(1, 5))
+        lay = r.sample(LAYOUTS, 3)
+        if r.random() < 0.3:
+            lay[r.randint(1, 2)] = lay[0]                 # also the fully identical text twice
+        yield {'multi': True, 'home': 'function', 'prog': g.program(), 'style': r.randint(0, 2 ** 30),
+               'vary': r.random() < 0.5, 'layouts': lay, 'trail': [r.choice(['', ' ', '\n', '\n\n']) for _ in range(3)],
+               'via_model': r.random() < 0.6}
+    for c in P5.generate(ctx, n_quick=1900):
+        yield c
 
 
 text_of = P5.text_of
@@ -157,6 +176,7 @@ class Typer(object):
         self.stmts = []             # (line, col, endcol) of every statement-like node
         self.lists = []             # per StatementListNode: [(line, col)] of its children, in source order
         self.params = []            # per invocation: [(line, col, endcol) of each parameter's expression]
+        self.evdata = set()         # indices into self.params that are event data lists
         self.chains = []            # per select-related: ((line, col) of the statement, [(kl, rel, phrase)])
         self.cur_stmt = None
 
@@ -399,6 +419,7 @@ class Typer(object):
     def event_spec(self, x):
         _, b = _unwrap(x)                   # EventSpecNode identifier meaning event_data
         self.plist(b[3])
+        self.evdata.add(len(self.params) - 1)
 
 
 JUDGED = ('literal', 'boolean-operator', 'cardinality', 'variable', 'attribute', 'parameter')
@@ -415,7 +436,68 @@ def _subtype_names(m, inst, rel_id):
     return out
 
 
+def run_multi(case):
+    """one body, three homes of one model, different leading layout: statements of each action carry the line
+    and columns of that action's own text (expected positions: the action's own text parsed on its own)"""
+    rig = _rig
+    one, many = rig.xtuml.navigate_one, rig.xtuml.navigate_many
+    body = text_of(case)
+    m, homes = rig.fresh()
+    texts = {}
+    for hn, lay, trail in zip(MULTI_HOMES, case['layouts'], case['trail']):
+        texts[hn] = lay + body + trail
+        homes[hn].Action_Semantics_internal = texts[hn]
+        homes[hn].Suc_Pars = 1
+    try:
+        if case.get('via_model'):
+            rig.prebuild.prebuild_model(m)
+        else:
+            for hn in MULTI_HOMES:
+                rig.prebuild.prebuild_action(homes[hn])
+    except Exception as e:
+        if type(e) is Exception and str(e).startswith(('Unknown transient', 'Unknown identifier')):
+            return {'obs': [Sym('out-of-domain'), str(e)], 'd_fail': [], 'nontrivial': False, 'stats': {'out_of_domain': 1}}
+        raise
+    fails = []
+    acts = {'function': lambda h: one(h).ACT_FNB[695].ACT_ACT[698](),
+            'bridge': lambda h: one(h).ACT_BRB[697].ACT_ACT[698](),
+            'operation': lambda h: one(h).ACT_OPB[696].ACT_ACT[698]()}
+    nst = 0
+    for hn in MULTI_HOMES:
+        ty = Typer(hn)
+        enc = oal_sexp.encode(rig.parse(texts[hn]), positions=True)
+        _, b = _unwrap(enc)
+        _, blk = _unwrap(b[1])
+        _, sl = _unwrap(blk[1])
+        ty.stmt_list(sl)
+        act_act = acts[hn](homes[hn])
+        got = sorted((s.LineNumber, s.StartPosition, getattr(s, 'EndPosition', None))
+                     for s in many(act_act).ACT_BLK[601].ACT_SMT[602]()) if act_act is not None else None
+        want = sorted(ty.stmts)
+        nst += len(want)
+        if got != want and len(fails) < 3:
+            fails.append({'sig': 'statement-position',
+                          'what': 'the %s action holds %r (the same body as the other actions of the model up to leading / '
+                                  'trailing white space); its ACT_SMT (line, start, end) = %s, the statements of its own '
+                                  'text are at %s\n--- all three texts: %r' % (hn, texts[hn], got, want, texts)})
+        vgot = sorted((v.LineNumber, v.StartPosition, v.EndPosition)
+                      for v in many(act_act).ACT_BLK[601].V_VAL[826]()) if act_act is not None else None
+        vwant = sorted(ty.values)
+        if vgot != vwant and got == want and len(fails) < 3:
+            fails.append({'sig': 'value-position',
+                          'what': 'the V_VAL instances of the %s action %r are at %s, the expressions of its own text at %s'
+                                  % (hn, texts[hn], vgot, vwant)})
+    added = _violations(m) - _before
+    if added:
+        fails.append({'sig': 'integrity-added', 'what': 'prebuilding three actions %r added %d violation(s)' % (texts, added)})
+    return {'obs': Sym('multi'), 'd_fail': fails, 'nontrivial': nst >= 3,
+            'key': 'multi:' + hashlib.sha1(repr(sorted(texts.items())).encode()).hexdigest()[:16],
+            'stats': {'multi_action_models': 1, 'statements': nst}}
+
+
 def run_impl(case):
+    if case.get('multi'):
+        return run_multi(case)
     rig = _rig
     one = rig.xtuml.navigate_one
     text = text_of(case)
@@ -494,10 +576,11 @@ def run_impl(case):
             stmt_obs.append(row)
     # R816 neighbour references, per invocation
     par_obs = []
+    evt_obs = []
     val_by_pos = {}
     for v in vals:
         val_by_pos[(v.LineNumber, v.StartPosition, v.EndPosition)] = v
-    for poss in ty.params:
+    for pi_, poss in enumerate(ty.params):
         pars = []
         for p in poss:
             v = val_by_pos.get(p)
@@ -515,7 +598,7 @@ def run_impl(case):
                 fail('next-parameter', 'parameter %d (%s) of %d: Next_Value_ID designates %s, its successor in source '
                      'order is %s' % (i, p.Name, len(pars), _idx(ids, nxt), _idx(ids, exp)))
             row.append(ids.index(nxt) if nxt in ids else (Sym('none') if not nxt else Sym('other')))
-        par_obs.append(row)
+        (evt_obs if pi_ in ty.evdata else par_obs).append(row)
     npar = len(list(m.select_many('V_PAR')))
     if npar != sum(len(p) for p in ty.params):
         fail('parameter-count', '%d V_PAR instances for %d parameters in the source' % (npar, sum(len(p) for p in ty.params)))
@@ -596,7 +679,12 @@ def run_impl(case):
     srt = lambda rows: sorted(rows, key=lambda r: (len(r), dumps(r)))
     misses, hits = _recipe_misses(m)
     stats.update(hits)
-    return {'obs': [val_obs, srt(stmt_obs), srt(par_obs), srt(lnk_obs), misses], 'd_fail': fails,
+    var_obs = []
+    for v_var in m.select_many('V_VAR'):
+        if v_var.Name != 'self':
+            s_dt = one(v_var).S_DT[848]()
+            var_obs.append([v_var.Name, s_dt.Name if s_dt is not None else Sym('none')])
+    return {'obs': [val_obs, srt(stmt_obs), srt(par_obs), srt(lnk_obs), srt(evt_obs), var_obs, misses], 'd_fail': fails,
             'nontrivial': nstm >= 2 and len(vals) >= 3 and len(ty.decls) >= 1,
             'key': case['home'] + ':' + hashlib.sha1(text.encode()).hexdigest()[:16], 'stats': stats}
 
@@ -616,8 +704,8 @@ def _idx(ids, x):
 
 
 def model_line(case):
-    if case.get('events'):
-        return None         # event statements are outside the Lean model; the direct predicate judges them
+    if case.get('multi'):
+        return None
     tree = _rig.parse(text_of(case))
     return dumps([Sym('c06'), G.ctx_sexp(case['home']), oal_sexp.encode(tree)])
 
